@@ -223,3 +223,21 @@ CHECKS = {
         assumptions=[],
     ),
 }
+
+# rules added after the texts above were written (kept separate so the per-property texts stay readable)
+EXTRA = {
+    "C01": "R01.5 every path of Image::draw / SubImage drawing passes through the one draw call of the wrapped image on the target translated by the offset (must-pass-through on path summaries).",
+    "C02": "R02.9 Line::styled_bounding_box is with_corners over exactly the four end points of extents(stroke_width, StrokeOffset::None) (a fold over the literal array of the four points is expanded).",
+    "C06": "R06.7 the fill range of a styled scanline (circle, ellipse, rounded rectangle) is searched over the stroke scanline's own column range from its first column; a skipped or shifted range is reported.",
+    "C11": "R11.9 the public RawData::load/store of all 7 types hand (self,) buffer, index to LoadStore and return its outcome on every path; a path answering by itself must have established load(buffer, index) is Some(self) (Ok without a store) or is None (Err/None).",
+    "C12": "O6 also covers to_ne_bytes (native order of the analysed host build).",
+    "C16": "R16.8 (decision by order types, mirq/orders.py) for non-empty rectangles Rectangle::intersection takes the corner-building exit exactly when column ranges and row ranges overlap: all 100 x 100 order types of the eight corner coordinates are read off the path summaries; arithmetic on a coordinate makes the rule undecided.",
+    "C17": "R17.6 the styled line's pixel iterator pulls exactly one item of ThickPoints::next per call, ends iff the pull ends and returns Pixel(pulled point, colour): no filter or search over the point iterator.",
+    "C18": "R18.9 the first / last column of a rounded-rectangle row is searched over the rectangle's whole column range (a corner can be wider than half the rectangle). R05.1 sector wiring (Sector::contains = circle test and PlaneSector test on 2p - center_2x; Sector::center_2x equals the circle's formula).",
+    "C19": "R19.5 (decision by order types) Triangle::sorted_yx returns a permutation of the vertices ordered by (y, x) for all 729 order types of the six coordinates. R19.6 the triangle stored in ScanlineIntersections and asked is_collapsed is sorted_clockwise(..) on every path, traced through parameters to every call site. R19.7 a Pixel built from an item of polyline::Points in the polyline's styled code has that item itself as its point (no second translation).",
+}
+for _k, _v in EXTRA.items():
+    CHECKS[_k]["explanation"] = CHECKS[_k]["explanation"].rstrip() + " " + _v
+for _k in ("C16", "C19"):
+    if "order types" not in CHECKS[_k]["technique"]:
+        CHECKS[_k]["technique"] += ", exhaustive case analysis over order types of comparison-only code"
